@@ -26,6 +26,8 @@ def outcome_class(out):
     if out.startswith("PANIC"):
         return "panic"
     body = out.split(" || ")[0].split(" | ")[-1] if " || " in out else out
+    if body.startswith("CTX{"):
+        return "dump"
     if body.startswith("OK"):
         return "ok"
     if body.startswith("ERR "):
@@ -441,4 +443,1616 @@ PROPS["C12"] = {
     "assumptions": ["translator tools/translate_interface.py (syntactic translation of the 49 wrapper bodies; refuses unknown shapes)",
                     "the interpreter of translated wrappers (Model/InterfaceGen.v) reads a wrapper body the way Rust executes it",
                     "the two evaluators eval_ro / eval_mut of the model equal the Rust ones: correspondence of this run"],
+}
+
+
+# ---------------------------------------------------------------------------------------------
+# C02 / C05: trees of generated ASTs against the reference tree
+# ---------------------------------------------------------------------------------------------
+
+def ast_tree_case(e, rng, style):
+    toks = G.flatten(e)
+    src = G.render(toks, rng, style, comments=False)
+    return ("TREE\t" + hexs(src), {"kind": "ast-tree", "src": src, "want": "OK " + G.tree_of_top(e)})
+
+
+def tree_oracle(case, out, model_out):
+    m = case[1]
+    if m.get("kind") != "ast-tree":
+        return None
+    if out != m["want"]:
+        return "precompiling %r gives %s, the tree dictated by the table is %s" % (m["src"], out[:400], m["want"][:400])
+    return None
+
+
+def all_two_operator_asts():
+    """a o1 b o2 c for every ordered pair of binary operators, in both groupings, plus prefix/assign/call mixes"""
+    out = []
+    A, B, C = ("var", "a"), ("var", "b"), ("lit", "3", "I3")
+    for o1 in G.BINOPS:
+        for o2 in G.BINOPS:
+            out.append(("bin", o2, ("bin", o1, A, B), C))
+            out.append(("bin", o1, A, ("bin", o2, B, C)))
+        for u in G.UNOPS:
+            out.append(("bin", o1, ("pre", u, A), B))
+            out.append(("bin", o1, A, ("pre", u, B)))
+            out.append(("pre", u, ("bin", o1, A, B)))
+        out.append(("bin", o1, ("call", "f", A), B))
+        out.append(("bin", o1, A, ("call", "f", B)))
+        out.append(("call", "f", ("bin", o1, A, B)))
+        for asg in G.ASSIGNOPS:
+            out.append(("asg", asg, "x", ("bin", o1, A, B)))
+            out.append(("bin", o1, A, ("asg", asg, "x", B)))
+    for a1 in G.ASSIGNOPS:
+        for a2 in G.ASSIGNOPS:
+            out.append(("asg", a1, "x", ("asg", a2, "y", C)))
+    for u1 in G.UNOPS:
+        for u2 in G.UNOPS:
+            out.append(("pre", u1, ("pre", u2, A)))
+        out.append(("pre", u1, ("call", "f", A)))
+        out.append(("call", "f", ("pre", u1, A)))
+        out.append(("call", "f", ("call", "g", ("pre", u1, A))))
+    return out
+
+
+def excluded_c02(e):
+    """`x ^ -y ^ z`: a prefix operator as right operand of `^` whose own operand is followed by `^` (not claimed)"""
+    if e is None or e[0] in ("lit", "var"):
+        return False
+    if e[0] == "bin" and e[1] == "^" and e[3][0] == "pre" and e[3][2][0] == "bin" and e[3][2][1] == "^":
+        return True
+    kids = {"bin": e[2:4], "pre": e[2:3], "asg": e[3:4], "call": e[2:3], "paren": e[1:2], "tuple": e[1] if e[0] == "tuple" else [], "chain": e[1] if e[0] == "chain" else []}.get(e[0], [])
+    return any(excluded_c02(k) for k in kids)
+
+
+def c02_gen(tier, rng):
+    cases = []
+    for raw in all_two_operator_asts():
+        e = G.parenthesize(raw)
+        cases.append(ast_tree_case(e, rng, "space"))
+        cases.append(ast_tree_case(G.add_redundant_parens(rng, e, 0.3), rng, "tight"))
+    n = 15000 if tier == "quick" else 300000
+    for _ in range(n):
+        raw = G.rand_expr(rng, rng.randint(1, 6), allow_seq=False)
+        e = G.parenthesize(raw)
+        if rng.random() < 0.4:
+            e = G.add_redundant_parens(rng, e)
+        cases.append(ast_tree_case(e, rng, rng.choice(["space", "tight", "random"])))
+    # exhaustive short token sequences: model vs implementation only
+    for seq in G.token_sequences_exhaustive(G.TOKEN_ALPHABET16, 4 if tier == "quick" else 5):
+        cases.append(("TREE\t" + hexs(" ".join(seq)), {"kind": "token-seq"}))
+    return cases
+
+
+def c05_gen(tier, rng):
+    cases = []
+    n = 15000 if tier == "quick" else 200000
+    for _ in range(n):
+        raw = G.rand_seq(rng, rng.randint(0, 3))
+        e = G.parenthesize_seq(raw)
+        if rng.random() < 0.3:
+            e = G.add_redundant_parens(rng, e)
+        cases.append(ast_tree_case(e, rng, rng.choice(["space", "tight"])))
+    alphabet = [",", ";", "(", ")", "1", "a", "="]
+    for seq in G.token_sequences_exhaustive(alphabet, 5 if tier == "quick" else 7):
+        cases.append(("TREE\t" + hexs(" ".join(seq)), {"kind": "token-seq"}))
+    # values: chains/tuples of simple elements with effects, against a small reference evaluation
+    for _ in range(4000 if tier == "quick" else 60000):
+        cases.append(c05_value_case(rng))
+    return cases
+
+
+def c05_value_case(rng):
+    """chain of tuples of simple elements: n | x | x = n | x += n | rec(n) | (nested seq); reference value,
+    final context and call log computed here; evaluated with a mutable or (without assignments) a shared context"""
+    env = {}
+    log = []
+    readonly = rng.random() < 0.35
+
+    def elem(depth):
+        k = rng.random()
+        if k < 0.1:
+            return None, ("E", None)
+        if k < 0.3:
+            n = rng.randint(0, 9)
+            return ("lit", str(n), "I%d" % n), ("I", n)
+        if k < 0.45:
+            n = rng.randint(0, 9)
+            log.append(n)
+            return ("call", "rec", ("lit", str(n), "I%d" % n)), ("I", n)
+        if k < 0.6 and not readonly:
+            x = rng.choice(["p", "q"])
+            n = rng.randint(0, 9)
+            env[x] = n
+            return ("asg", "=", x, ("lit", str(n), "I%d" % n)), ("E", None)
+        if k < 0.7 and env:
+            x = rng.choice(sorted(env))
+            return ("var", x), ("I", env[x])
+        if k < 0.8 and env and not readonly:
+            x = rng.choice(sorted(env))
+            n = rng.randint(0, 9)
+            env[x] += n
+            return ("asg", "+=", x, ("lit", str(n), "I%d" % n)), ("E", None)
+        if depth < 2:
+            s, v = seq(depth + 1)
+            return ("paren", s), v
+        n = rng.randint(0, 9)
+        return ("lit", str(n), "I%d" % n), ("I", n)
+
+    def tup(depth):
+        items = [elem(depth) for _ in range(rng.randint(2, 3))]
+        return ("tuple", [i[0] for i in items]), ("T", [i[1] for i in items])
+
+    def seq(depth):
+        k = rng.random()
+        if k < 0.3:
+            return tup(depth)
+        parts = []
+        for _ in range(rng.randint(2, 4)):
+            parts.append(tup(depth) if rng.random() < 0.4 else elem(depth))
+        return ("chain", [p[0] for p in parts]), parts[-1][1]
+
+    s, v = seq(0)
+    src = G.render(G.flatten(s), None, "space")
+    want_ctx = ",".join("%s=I%d" % (hexs(k), env[k]) for k in sorted(env, key=hexs))
+    want_log = ",".join("%s(I%d)" % (hexs("rec"), n) for n in log)
+    entry = rng.choice(["srv", "nrv"]) if readonly else rng.choice(["smv", "nmv"])
+    return (G.script("H", ["setfn %s id" % hexs("rec"), "ev %s %s" % (entry, hexs(src))]),
+            {"kind": "seq-value", "src": src, "entry": entry, "want": "OK " + value_text(v),
+             "want_tail": "CTX{%s;off=0;fns=%s} LOG[%s]" % (want_ctx, hexs("rec"), want_log)})
+
+
+def c05_oracle(case, out, model_out):
+    m = case[1]
+    if m.get("kind") == "ast-tree":
+        return tree_oracle(case, out, model_out)
+    if m.get("kind") == "seq-value":
+        steps = step_outputs(out)
+        tail = out.split(" || ")[1] if " || " in out else ""
+        if steps[-1] != m["want"] or tail != m["want_tail"]:
+            return "evaluating %r (%s) gives %s with %s; every element is evaluated in order, a chain yields its last element and a tuple all of them: %s with %s" % (m["src"], m["entry"], steps[-1], tail, m["want"], m["want_tail"])
+    return None
+
+
+PROPS["C02"] = {
+    "gen": c02_gen, "oracle": tree_oracle,
+    "rule": "all ASTs a o1 b o2 c over the 14x14 ordered binary-operator pairs in both groupings, with prefix, call and the 9 assignment operators, rendered with exactly the required parentheses and with redundant ones; random ASTs of depth <= 6 over all operators with random separators; all token sequences of length <= 4 (quick) / 5 (thorough) over a 16-token alphabet (model vs implementation); non-trivial = more than one token",
+    "nontrivial": lambda c, out: len(c[0]) > 16,
+    "assumptions": ["the reference tree of tools/gen.py (tree_of) is the Python twin of Spec/Grammar.v tree_of; used only to search for failing inputs",
+                    "model of the tree builder equals the Rust code: correspondence of this run"],
+}
+PROPS["C05"] = {
+    "gen": c05_gen, "oracle": c05_oracle,
+    "rule": "random sequences mixing `,` and `;` with absent elements, assignments and nested parenthesised sequences (depth <= 3), reference tree = chain of tuples; all token sequences of length <= 5 (quick) / 7 (thorough) over {, ; ( ) 1 a =} (model vs implementation); chains/tuples of effectful elements evaluated and compared with a reference value and final context; non-trivial = contains a separator",
+    "nontrivial": lambda c, out: True,
+    "assumptions": ["reference tree / value computed by tools/props.py, used only to search for failing inputs",
+                    "model of the tree builder and of Tuple/Chain/RootNode evaluation equals the Rust code: correspondence of this run"],
+}
+
+
+# ---------------------------------------------------------------------------------------------
+# C13: an independent recogniser of ill-formed token sequences
+# ---------------------------------------------------------------------------------------------
+BINARY_TOKENS = {"+", "*", "/", "%", "^", "==", "!=", ">", "<", ">=", "<=", "&&", "||"} | set(G.ASSIGNOPS)
+
+
+def tok_class(t):
+    if t in ("(", ")", ",", ";", "-", "!"):
+        return t
+    if t in BINARY_TOKENS:
+        return "bin"
+    if t in ("true", "false") or t[0].isdigit() or t[0] == '"' or t[0] == ".":
+        return "lit"
+    return "id"
+
+
+def recognise(tokens):
+    """returns (balanced, reason) with reason in None (grammatical) | 'MissingOperand' | 'Juxtaposed'.
+    Two states: operand expected (E0 at the start of a sequence element, where an absent element is allowed;
+    E1 after an operator, where an operand is required) and operator expected (O)."""
+    depth = 0
+    balanced = True
+    state = "E0"
+    reason = None
+    n = len(tokens)
+    for i, t in enumerate(tokens):
+        c = tok_class(t)
+        nxt = tok_class(tokens[i + 1]) if i + 1 < n else None
+        if c == "(":
+            if state == "O" and reason is None:
+                reason = "Juxtaposed"
+            depth += 1
+            state = "E0"
+        elif c == ")":
+            if depth == 0:
+                balanced = False
+            else:
+                depth -= 1
+            if state == "E1" and reason is None:
+                reason = "MissingOperand"
+            state = "O"
+        elif c in (",", ";"):
+            if state == "E1" and reason is None:
+                reason = "MissingOperand"
+            state = "E0"
+        elif c == "lit":
+            if state == "O" and reason is None:
+                reason = "Juxtaposed"
+            state = "O"
+        elif c == "id":
+            if state == "O" and reason is None:
+                reason = "Juxtaposed"
+            # function application: the argument follows, an operand is still expected
+            state = "E1" if nxt in ("(", "lit", "id") else "O"
+        elif c == "!":
+            if state == "O" and reason is None:
+                reason = "Juxtaposed"
+            state = "E1"
+        elif c == "-":
+            state = "E1"  # binary after an operand, prefix otherwise: an operand must follow either way
+        elif c == "bin":
+            if state != "O" and reason is None:
+                reason = "MissingOperand"
+            state = "E1"
+    if state == "E1" and reason is None:
+        reason = "MissingOperand"
+    if depth != 0:
+        balanced = False
+    return balanced, reason
+
+
+C13_SETUP = ["init %s I3" % hexs("a"), "setfn %s id" % hexs("a"), "init %s I4" % hexs("b"), "setfn %s id" % hexs("f")]
+
+
+def c13_case(tokens):
+    src = " ".join(tokens)
+    balanced, reason = recognise(tokens)
+    ops = C13_SETUP + ["evc build " + hexs(src), "evc smv " + hexs(src), "evc sfv " + hexs(src), "evc srv " + hexs(src)]
+    return (G.script("H", ops), {"kind": "token-seq-eval", "src": src, "balanced": balanced, "reason": reason})
+
+
+def c13_gen(tier, rng):
+    cases = []
+    for seq in G.token_sequences_exhaustive(G.TOKEN_ALPHABET16, 4 if tier == "quick" else 5):
+        cases.append(c13_case(seq))
+    for seq in G.token_sequences_random(rng, 20000 if tier == "quick" else 300000, maxlen=10):
+        cases.append(c13_case(seq))
+    # an operator directly after an operator, followed by two operands
+    ops_all = sorted(BINARY_TOKENS) + ["-", "!", ",", ";"]
+    for o1 in ops_all:
+        for o2 in ops_all:
+            for tail in (["2", "3"], ["( 2 )", "( 3 )"], ["a", "b"], ["2"], ["2", "3", "4"]):
+                cases.append(c13_case(["1", o1, o2] + " ".join(tail).split(" ")))
+                cases.append(c13_case(["a", o1, o2] + " ".join(tail).split(" ")))
+    # near misses of well-formed programs
+    for _ in range(10000 if tier == "quick" else 100000):
+        raw = G.rand_seq(rng, 2) if rng.random() < 0.3 else G.rand_expr(rng, rng.randint(1, 4))
+        e = G.parenthesize_seq(raw) if raw[0] in ("tuple", "chain") else G.parenthesize(raw)
+        toks = G.flatten(e)
+        k = rng.random()
+        if toks and k < 0.3:
+            toks.pop(rng.randrange(len(toks)))
+        elif toks and k < 0.6:
+            toks.insert(rng.randrange(len(toks) + 1), rng.choice(G.TOKEN_ALPHABET_FULL))
+        elif len(toks) > 1 and k < 0.8:
+            i = rng.randrange(len(toks) - 1)
+            toks[i], toks[i + 1] = toks[i + 1], toks[i]
+        cases.append(c13_case(toks))
+    return cases
+
+
+def c13_oracle(case, out, model_out):
+    m = case[1]
+    if m.get("kind") != "token-seq-eval":
+        return None
+    if out.startswith("PANIC"):
+        return None
+    steps = step_outputs(out)[len(C13_SETUP):]
+    build, evals = steps[0], steps[1:]
+    if not m["balanced"] and build.startswith("OK"):
+        return "unbalanced parentheses in %r are accepted: %s" % (m["src"], build[:200])
+    if m["balanced"] and (build.startswith("ERR UnmatchedLBrace") or build.startswith("ERR UnmatchedRBrace")):
+        return "balanced input %r is reported as unbalanced: %s" % (m["src"], build)
+    if m["reason"] is not None:
+        for e in evals:
+            if e.startswith("OK"):
+                return "%r is ill-formed (%s) but evaluates: %s" % (m["src"], m["reason"], e[:200])
+    return None
+
+
+PROPS["C13"] = {
+    "gen": c13_gen, "oracle": c13_oracle,
+    "rule": "all token sequences of length <= 4 (quick) / 5 (thorough) over a 16-token alphabet, random sequences up to 10 tokens over the full alphabet, near misses of well-formed programs (token deleted / inserted / swapped); each is classified by an independent recogniser (parenthesis counter + operand/operator automaton with the function-application and empty-element rules) and precompiled and evaluated in an empty and a populated context; non-trivial = classified ill-formed or unbalanced",
+    "nontrivial": lambda c, out: c[1].get("reason") is not None or not c[1].get("balanced", True),
+    "exhaustive": True,
+    "assumptions": ["the Python recogniser of tools/props.py is the twin of Spec/Recognizer.v; used only to search for failing inputs",
+                    "model of the tree builder equals the Rust code: correspondence of this run"],
+}
+
+
+# ---------------------------------------------------------------------------------------------
+# C10: builtins.  Reference for the non-transcendental builtins computed here; the math functions are
+# compared with the model, which routes them to the very same std functions (argument order, conversion).
+# ---------------------------------------------------------------------------------------------
+MATH1 = {"math::ln", "math::log2", "math::log10", "math::exp", "math::exp2", "math::cos", "math::acos", "math::cosh",
+         "math::acosh", "math::sin", "math::asin", "math::sinh", "math::asinh", "math::tan", "math::atan", "math::tanh",
+         "math::atanh", "math::sqrt", "math::cbrt", "floor", "round", "ceil"}
+MATH2 = {"math::log", "math::pow", "math::atan2", "math::hypot"}
+
+
+def is_num(v):
+    return v[0] in "IF"
+
+
+def num_lt(a, b):
+    if a[0] == "I" and b[0] == "I":
+        return a[1] < b[1]
+    return to_f(a) < to_f(b)
+
+
+def has_nan(vs):
+    return any(v[0] == "F" and to_f(v) != to_f(v) for v in vs)
+
+
+def utf8len(s):
+    return len(s.encode("utf-8"))
+
+
+def wrap64(z):
+    z &= (1 << 64) - 1
+    return z - (1 << 64) if z >> 63 else z
+
+
+def c10_reference(name, arg):
+    """returns ('val', text) | 'err' | ('oneof', [texts]) | None (not constrained here)"""
+    t, x = arg
+    if name in MATH1:
+        if not is_num(arg):
+            return "err"
+        f = to_f(arg)
+        if name in ("floor", "ceil"):
+            if f != f or math.isinf(f):
+                r = f
+            else:
+                r = float(math.floor(f) if name == "floor" else math.ceil(f))
+                if r == 0.0:
+                    r = math.copysign(0.0, f)
+            return ("val", "F%016x" % f_bits(r))
+        return None
+    if name in MATH2:
+        if t != "T" or len(x) != 2 or not all(is_num(v) for v in x):
+            return "err"
+        return None
+    if name in ("math::is_nan", "math::is_finite", "math::is_infinite", "math::is_normal"):
+        if not is_num(arg):
+            return "err"
+        f = to_f(arg)
+        r = {"math::is_nan": f != f, "math::is_finite": not (f != f or math.isinf(f)), "math::is_infinite": math.isinf(f),
+             "math::is_normal": (f == f and not math.isinf(f) and abs(f) >= 2.2250738585072014e-308)}[name]
+        return ("val", "B%d" % r)
+    if name == "math::abs":
+        if t == "I":
+            return "err" if x == G.I64_MIN else ("val", "I%d" % abs(x))
+        if t == "F":
+            return ("val", "F%016x" % (x & ~(1 << 63) if x != NAN else NAN))
+        return "err"
+    if name == "typeof":
+        return ("val", "S" + hexs({"S": "string", "F": "float", "I": "int", "B": "boolean", "T": "tuple", "E": "empty"}[t]))
+    if name in ("min", "max"):
+        items = x if t == "T" else [arg]
+        if t not in "TIF":
+            return "err"
+        if not items or not all(is_num(v) for v in items):
+            return "err"
+        if has_nan(items):
+            return None
+        if name == "min":
+            best = [v for v in items if not any(num_lt(w, v) for w in items)]
+        else:
+            best = [v for v in items if not any(num_lt(v, w) for w in items)]
+        return ("oneof", [value_text(v) for v in best])
+    if name == "if":
+        if t != "T" or len(x) != 3 or x[0][0] != "B":
+            return "err"
+        return ("val", value_text(x[1] if x[0][1] else x[2]))
+    if name == "contains":
+        if t != "T" or len(x) != 2 or x[0][0] != "T" or x[1][0] in "TE":
+            return "err"
+        return ("val", "B%d" % any(veq(e, x[1]) for e in x[0][1]))
+    if name == "contains_any":
+        if t != "T" or len(x) != 2 or x[0][0] != "T" or x[1][0] != "T" or any(e[0] in "TE" for e in x[1][1]):
+            return "err"
+        return ("val", "B%d" % any(veq(e, w) for e in x[0][1] for w in x[1][1]))
+    if name == "len":
+        # the unit (bytes or characters) is not claimed; consistency with str::substring is (see c10 consistency cases)
+        if t == "S":
+            return ("oneof", sorted({"I%d" % utf8len(x), "I%d" % len(x)}))
+        if t == "T":
+            return ("val", "I%d" % len(x))
+        return "err"
+    if name == "str::trim":
+        return ("val", "S" + hexs(x.strip("".join(chr(c) for c in G.WHITESPACE)))) if t == "S" else "err"
+    if name in ("str::to_lowercase", "str::to_uppercase"):
+        return None if t == "S" else "err"
+    if name == "str::from":
+        if t == "S":
+            return ("val", "S" + hexs(x))
+        if t == "I":
+            return ("val", "S" + hexs(str(x)))
+        if t == "B":
+            return ("val", "S" + hexs("true" if x else "false"))
+        if t == "E":
+            return ("val", "S" + hexs("()"))
+        return None
+    if name == "str::substring":
+        if t != "T" or len(x) not in (2, 3) or x[0][0] != "S" or x[1][0] != "I" or (len(x) == 3 and x[2][0] != "I"):
+            return "err"
+        def sub(unit_bytes):
+            start = x[1][1]
+            if unit_bytes:
+                b = x[0][1].encode("utf-8")
+                end = x[2][1] if len(x) == 3 else len(b)
+                if start < 0 or end < 0 or start > end or end > len(b):
+                    return "err"
+                try:
+                    b[:start].decode("utf-8")
+                    mid = b[start:end].decode("utf-8")
+                    b[end:].decode("utf-8")
+                except UnicodeDecodeError:
+                    return "err"
+                return "S" + hexs(mid)
+            end = x[2][1] if len(x) == 3 else len(x[0][1])
+            if start < 0 or end < 0 or start > end or end > len(x[0][1]):
+                return "err"
+            return "S" + hexs(x[0][1][start:end])
+        rb, rc = sub(True), sub(False)
+        if rb == rc:
+            return "err" if rb == "err" else ("val", rb)
+        return ("oneof-or-err", [r for r in (rb, rc) if r != "err"], "err" in (rb, rc))
+    if name in ("bitand", "bitor", "bitxor", "shl", "shr"):
+        if t != "T" or len(x) != 2 or x[0][0] != "I" or x[1][0] != "I":
+            return "err"
+        a, b = x[0][1], x[1][1]
+        if name == "bitand":
+            return ("val", "I%d" % (a & b))
+        if name == "bitor":
+            return ("val", "I%d" % (a | b))
+        if name == "bitxor":
+            return ("val", "I%d" % (a ^ b))
+        if not 0 <= b <= 63:
+            return None
+        return ("val", "I%d" % (wrap64(a << b) if name == "shl" else a >> b))
+    if name == "bitnot":
+        return ("val", "I%d" % (~x)) if t == "I" else "err"
+    return "err-notfound"
+
+
+def c10_oracle(case, out, model_out):
+    m = case[1]
+    if m.get("kind") == "len-substring-unit":
+        last = step_outputs(out)[-1]
+        if last != "OK B1":
+            return "len and str::substring disagree on the indexing unit: with x = %s, `%s` gives %s" % (m["arg"], m["src"], last)
+        return None
+    if m.get("kind") != "builtin":
+        return None
+    if out.startswith("PANIC"):
+        return "panic in builtin %s(%s)" % (m["name"], m["arg"])
+    last = step_outputs(out)[-1]
+    ref = c10_reference(m["name"], parse_value(m["arg"]))
+    if ref is None:
+        # routed to std: the verified model calls the same std function with the documented arguments
+        if model_out is not None and not model_out.startswith("PANIC"):
+            mlast = step_outputs(model_out)[-1]
+            if mlast != last and not (mlast.startswith("ERR") and last.startswith("ERR")):
+                return "%s(%s) = %s, the reference (std function on the documented arguments) gives %s" % (m["name"], m["arg"], last, mlast)
+        return None
+    if ref == "err" or ref == "err-notfound":
+        if last.startswith("OK"):
+            return "%s(%s) must be an error (wrong arity / type / range), got %s" % (m["name"], m["arg"], last)
+        return None
+    if ref[0] == "val" and last != "OK " + ref[1]:
+        return "%s(%s) = %s, documented result %s" % (m["name"], m["arg"], last, ref[1])
+    if ref[0] == "oneof-or-err":
+        if last.startswith("OK ") and last[3:] not in ref[1]:
+            return "%s(%s) = %s, neither the byte-indexed nor the character-indexed substring %s" % (m["name"], m["arg"], last, ref[1])
+        if last.startswith("ERR") and not ref[2]:
+            return "%s(%s) fails with %s but the range is valid in both indexing units" % (m["name"], m["arg"], last)
+        return None
+    if ref[0] == "oneof" and (not last.startswith("OK ") or last[3:] not in ref[1]):
+        return "%s(%s) = %s, must be one of the extreme arguments %s" % (m["name"], m["arg"], last, ref[1])
+    return None
+
+
+def c10_gen(tier, rng):
+    cases = []
+    P, SP = G.pool(), G.small_pool()
+    names = list(L.DOCUMENTED_BUILTINS)
+
+    def add(name, arg):
+        cases.append((G.call_case(name, arg), {"kind": "builtin", "name": name, "arg": arg}))
+
+    ints = [G.vI(i) for i in G.INTS]
+    for n in names:
+        for a in P:
+            add(n, a)
+        pairs = [(a, b) for a in SP for b in SP]
+        if n in ("bitand", "bitor", "bitxor", "shl", "shr", "min", "max", "math::pow", "math::log", "math::atan2", "math::hypot"):
+            pairs += [(a, b) for a in ints for b in ints if rng.random() < (1.0 if tier == "thorough" else 0.25)]
+        if n in ("shl", "shr"):
+            pairs += [(a, G.vI(k)) for a in ints for k in range(-2, 67)]
+        if n in ("min", "max", "math::pow", "math::log", "math::atan2", "math::hypot"):
+            fl = [G.vF(b) for b in G.FLOAT_BITS]
+            pairs += [(a, b) for a in fl + ints for b in fl if rng.random() < (1.0 if tier == "thorough" else 0.08)]
+        if n in ("contains", "contains_any"):
+            pairs += [(t, v) for t in G.TUPLES for v in P if rng.random() < 0.5]
+        for a, b in pairs:
+            add(n, G.vT([a, b]))
+        for _ in range(150 if tier == "quick" else 3000):
+            k = rng.choice([0, 1, 2, 3, 3, 3, 4])
+            add(n, G.vT([rng.choice(P) if rng.random() < 0.7 else G.rand_value(rng) for _ in range(k)]))
+    # substring: subject x offsets
+    for s in G.STRINGS:
+        blen = len(s.encode("utf-8"))
+        for a in range(-1, blen + 2):
+            add("str::substring", G.vT([G.vS(s), G.vI(a)]))
+            for b in range(-1, blen + 2):
+                add("str::substring", G.vT([G.vS(s), G.vI(a), G.vI(b)]))
+        add("len", G.vS(s))
+    # len and str::substring use the same indexing unit
+    for s in G.STRINGS + [G.rand_unicode_string(rng, 8) for _ in range(300)]:
+        if '\x00' in s:
+            continue
+        for src, kind in (("str::substring(x, 0, len(x)) == x", "whole"), ("len(str::substring(x, len(x)))  == 0", "tail"),
+                          ("len(str::substring(x, 0, len(x))) == len(x)", "len-of-sub")):
+            cases.append((G.script("H", ["init %s %s" % (hexs("x"), G.vS(s)), "ev srv " + hexs(src)]),
+                          {"kind": "len-substring-unit", "src": src, "arg": G.vS(s)}))
+    # typed `if`
+    for c in ("B1", "B0"):
+        for a in SP:
+            for b in SP:
+                add("if", G.vT([c, a, b]))
+    # min / max over longer lists
+    for _ in range(3000 if tier == "quick" else 50000):
+        items = [G.vI(G.clamp_i64(G.rand_int(rng))) if rng.random() < 0.5 else G.vF(G.rand_float_bits(rng)) for _ in range(rng.randint(1, 5))]
+        add(rng.choice(["min", "max"]), G.vT(items))
+    # names that are not builtins
+    for n in ["abs", "sqrt", "math::min", "Math::ln", "str::len", "math::log1p", "substring", "floor2", "shl2"]:
+        add(n, G.vI(1))
+    return cases
+
+
+PROPS["C10"] = {
+    "gen": c10_gen, "oracle": c10_oracle, "release": True,
+    "rule": "every documented builtin (49) applied to every value of the edge pool P, to all pairs of the small pool (full integer/float pairs for the two-argument numeric ones, all shift amounts -2..66), to random tuples of arity 0..4, str::substring over all byte offsets of the string pool, typed `if`, min/max over random lists; debug and release builds; reference: documented result computed independently for the non-transcendental builtins, the std function on the documented arguments (through the model) for the others; non-trivial = the builtin returns a value",
+    "nontrivial": lambda c, out: " OK " in out.split(" || ")[0].split(" | ")[-1] or out.split(" || ")[0].split(" | ")[-1].startswith("OK"),
+    "assumptions": ["std oracle: the f64 functions of Rust's std are what the documentation calls `the corresponding double-precision library function`",
+                    "model of builtin_function equals the Rust code: correspondence of this run (complete matrix, bit-exact)"],
+}
+
+
+# ---------------------------------------------------------------------------------------------
+# C08 / C11: a reference interpreter for a small effectful language (python values:
+# ("I", n) ("B", b) ("T", [..]) ("E", None) ("S", s))
+# ---------------------------------------------------------------------------------------------
+class Stop(Exception):
+    def __init__(self, name):
+        self.name = name
+
+
+C08_FUNS = {"rec": "id", "k7": "konst:I7", "boom": "fail:" + hexs("boom"), "first": "fst", "sw": "swap", "up": "inc"}
+C08_VARS = {"p": ("I", 1), "q": ("B", True), "t": ("T", [("I", 1), ("I", 2)])}
+TYPE_NAME = {"S": "String", "I": "Int", "F": "Float", "B": "Boolean", "T": "Tuple", "E": "Empty"}
+
+
+def ref_call(f, arg, log):
+    log.append((f, arg))
+    kind = C08_FUNS[f]
+    if kind == "id":
+        return arg
+    if kind.startswith("konst"):
+        return ("I", 7)
+    if kind.startswith("fail"):
+        raise Stop("CustomMessage")
+    if kind == "fst":
+        if arg[0] != "T":
+            raise Stop("ExpectedTuple")
+        if not arg[1]:
+            raise Stop("OutOfBoundsAccess")
+        return arg[1][0]
+    if kind == "swap":
+        if arg[0] != "T":
+            raise Stop("ExpectedTuple")
+        if len(arg[1]) != 2:
+            raise Stop("ExpectedFixedLengthTuple")
+        return ("T", [arg[1][1], arg[1][0]])
+    if kind == "inc":
+        if arg[0] != "I":
+            raise Stop("ExpectedInt")
+        return ("I", arg[1] + 1)
+    raise ValueError(kind)
+
+
+def ref_set(env, x, v, readonly):
+    if readonly:
+        raise Stop("ContextNotMutable")
+    if x in env and env[x][0] != v[0]:
+        raise Stop("Expected" + TYPE_NAME[env[x][0]])
+    env[x] = v
+
+
+def ref_eval(e, env, log, readonly=False):
+    """strict left-to-right, children before the operator, first error wins"""
+    k = e[0]
+    if e is None:
+        return ("E", None)
+    if k == "lit":
+        return parse_value(e[2])
+    if k == "var":
+        if e[1] not in env:
+            raise Stop("VariableIdentifierNotFound")
+        return env[e[1]]
+    if k == "paren":
+        return ("E", None) if e[1] is None else ref_eval(e[1], env, log, readonly)
+    if k == "tuple":
+        return ("T", [("E", None) if x is None else ref_eval(x, env, log, readonly) for x in e[1]])
+    if k == "chain":
+        vs = [("E", None) if x is None else ref_eval(x, env, log, readonly) for x in e[1]]
+        return vs[-1]
+    if k == "pre":
+        v = ref_eval(e[2], env, log, readonly)
+        if e[1] == "!":
+            if v[0] != "B":
+                raise Stop("ExpectedBoolean")
+            return ("B", not v[1])
+        if v[0] != "I":
+            raise Stop("ExpectedNumber")
+        return ("I", -v[1])
+    if k == "call":
+        a = ref_eval(e[2], env, log, readonly)
+        return ref_call(e[1], a, log)
+    if k == "bin":
+        a = ref_eval(e[2], env, log, readonly)
+        b = ref_eval(e[3], env, log, readonly)
+        return ref_binop(e[1], a, b)
+    if k == "asg":
+        v = ref_eval(e[3], env, log, readonly)
+        if e[1] == "=":
+            ref_set(env, e[2], v, readonly)
+            return ("E", None)
+        if readonly:
+            raise Stop("ContextNotMutable")
+        if e[2] not in env:
+            raise Stop("VariableIdentifierNotFound")
+        r = ref_binop(e[1][:-1], env[e[2]], v)
+        ref_set(env, e[2], r, readonly)
+        return ("E", None)
+    raise ValueError(k)
+
+
+def ref_binop(op, a, b):
+    if op in ("&&", "||"):
+        if a[0] != "B":
+            raise Stop("ExpectedBoolean")
+        if b[0] != "B":
+            raise Stop("ExpectedBoolean")
+        return ("B", (a[1] and b[1]) if op == "&&" else (a[1] or b[1]))
+    if op == "==":
+        return ("B", veq(a, b))
+    if op == "+":
+        for v in (a, b):
+            if v[0] not in "ISF":
+                raise Stop("ExpectedNumberOrString")
+        if a[0] == "I" and b[0] == "I":
+            return ("I", a[1] + b[1])
+        raise Stop("WrongTypeCombination")
+    if op in ("-", "*", "/"):
+        for v in (a, b):
+            if v[0] not in "IF":
+                raise Stop("ExpectedNumber")
+        x, y = a[1], b[1]
+        if op == "/":
+            if y == 0:
+                raise Stop("DivisionError")
+            return ("I", trunc_div(x, y))
+        return ("I", x - y if op == "-" else x * y)
+    raise ValueError(op)
+
+
+def c08_rand_expr(r, depth, ty=None):
+    """mostly well-typed (ty in 'I', 'B', 'T', None = any) so that most programs run to completion"""
+    if ty is None or r.random() < 0.06:
+        ty = r.choice("IIIBT")
+    if depth <= 0 or r.random() < 0.2:
+        if r.random() < 0.04:
+            return ("var", r.choice(["u", "w"]))
+        if ty == "I":
+            if r.random() < 0.6:
+                n = r.randint(0, 9)
+                return ("lit", str(n), "I%d" % n)
+            return ("var", "p")
+        if ty == "B":
+            if r.random() < 0.6:
+                b = r.random() < 0.5
+                return ("lit", "true" if b else "false", G.vB(b))
+            return ("var", "q")
+        return ("var", "t")
+    k = r.random()
+    if k < 0.12:
+        return ("call", r.choice(["rec", "rec", "boom"] if r.random() < 0.9 else sorted(C08_FUNS)), c08_rand_expr(r, depth - 1, ty))
+    if k < 0.2:
+        x = {"I": r.choice(["p", "u"]), "B": r.choice(["q", "w"]), "T": "t"}[ty]
+        op = {"I": r.choice(["=", "+=", "-=", "*="]), "B": r.choice(["=", "&&=", "||="]), "T": "="}[ty]
+        return ("paren", ("chain", [("asg", op, x, c08_rand_expr(r, depth - 1, ty)), ("var", x)]))
+    if k < 0.27:
+        return ("paren", ("chain", [c08_rand_expr(r, depth - 1) if r.random() < 0.9 else None for _ in range(r.randint(1, 2))] + [c08_rand_expr(r, depth - 1, ty)]))
+    if ty == "I":
+        if k < 0.7:
+            return ("bin", r.choice(["+", "+", "-", "*", "/"]), c08_rand_expr(r, depth - 1, "I"), c08_rand_expr(r, depth - 1, "I"))
+        if k < 0.8:
+            return ("call", r.choice(["k7", "up", "first"]), c08_rand_expr(r, depth - 1, "T" if r.random() < 0.3 else "I"))
+        if k < 0.9:
+            return ("pre", "-", c08_rand_expr(r, depth - 1, "I"))
+        return ("call", "first", c08_rand_expr(r, depth - 1, "T"))
+    if ty == "B":
+        if k < 0.6:
+            return ("bin", r.choice(["&&", "||"]), c08_rand_expr(r, depth - 1, "B"), c08_rand_expr(r, depth - 1, "B"))
+        if k < 0.85:
+            t2 = r.choice("IBT")
+            return ("bin", "==", c08_rand_expr(r, depth - 1, t2), c08_rand_expr(r, depth - 1, t2))
+        return ("pre", "!", c08_rand_expr(r, depth - 1, "B"))
+    if k < 0.75:
+        return ("paren", ("tuple", [c08_rand_expr(r, depth - 1) if r.random() < 0.93 else None for _ in range(r.randint(2, 3))]))
+    if k < 0.9:
+        return ("call", "sw", ("paren", ("tuple", [c08_rand_expr(r, depth - 1), c08_rand_expr(r, depth - 1)])))
+    return ("call", "rec", c08_rand_expr(r, depth - 1, "T"))
+
+
+def c08_setup(kind="H"):
+    ops = ["init %s %s" % (hexs(k), value_text(v)) for k, v in sorted(C08_VARS.items())]
+    ops += ["setfn %s %s" % (hexs(f), spec) for f, spec in sorted(C08_FUNS.items())]
+    return ops
+
+
+def c08_program(r):
+    raw = c08_rand_expr(r, r.randint(1, 4))
+    if r.random() < 0.4:
+        stmts = []
+        for _ in range(r.randint(1, 3)):
+            if r.random() < 0.5:
+                ty = r.choice("IB")
+                x = r.choice(["p", "u"]) if ty == "I" else r.choice(["q", "w"])
+                stmts.append(("asg", r.choice(["=", "=", "+="]) if ty == "I" else r.choice(["=", "&&=", "||="]), x, c08_rand_expr(r, r.randint(0, 3), ty)))
+            else:
+                stmts.append(c08_rand_expr(r, r.randint(0, 3)))
+        raw = ("chain", stmts + [raw])
+        e = G.parenthesize_seq(raw)
+    else:
+        e = G.parenthesize(raw)
+    return e
+
+
+def ref_run(e, readonly):
+    env = dict(C08_VARS)
+    log = []
+    try:
+        v = ref_eval(e, env, log, readonly)
+        res = "OK " + value_text(v)
+    except Stop as s:
+        res = "ERR " + s.name
+    ctx = ",".join("%s=%s" % (hexs(k), value_text(env[k])) for k in sorted(env, key=hexs))
+    return res, ctx, ",".join("%s(%s)" % (hexs(f), value_text(a)) for f, a in log)
+
+
+def triple_of(out, nsetup):
+    """(last step result with error payload stripped, vars text, log text) of a SCRIPT outcome"""
+    steps = step_outputs(out)
+    last = steps[-1]
+    if last.startswith("ERR "):
+        last = "ERR " + re.match(r"ERR (\w+)", last).group(1)
+    tail = out.split(" || ")[1]
+    ctx = tail[len("CTX{"):tail.index(";off=")]
+    lg = tail[tail.index("LOG[") + 4:tail.rindex("]")]
+    return last, ctx, lg
+
+
+def c08_gen(tier, rng):
+    cases = []
+    n = 20000 if tier == "quick" else 300000
+    for _ in range(n):
+        e = c08_program(rng)
+        src = G.render(G.flatten(e), None, "space")
+        want = ref_run(e, False)
+        lvl = rng.choice("sn")
+        cases.append((G.script("H", c08_setup() + ["ev %smv %s" % (lvl, hexs(src))]),
+                      {"kind": "effects", "src": src, "want": list(want)}))
+    for src in ["false && rec(true)", "true || rec(false)", "false && (1/0 == 1)", "(rec(1), u = 5, 1/0, rec(2), u = 6)",
+                "p += (p = 10; 1); p", "rec(1) + boom(2) * rec(3)", "u = 1; (1 / 0) == (u = 2); u = 3"]:
+        cases.append((G.script("H", c08_setup() + ["ev smv " + hexs(src)]), {"kind": "effects-fixed", "src": src}))
+    return cases
+
+
+def c08_oracle(case, out, model_out):
+    m = case[1]
+    if m.get("kind") != "effects" or out.startswith("PANIC"):
+        return None
+    got = triple_of(out, 0)
+    want = tuple(m["want"])
+    if got != want:
+        return "program %r: (result, variables, call log) = %s, the reference interpreter (strict left-to-right, first error wins) gives %s" % (m["src"], got, want)
+    return None
+
+
+PROPS["C08"] = {
+    "gen": c08_gen, "oracle": c08_oracle,
+    "rule": "random programs (depth <= 4, optionally a chain of several) over int/bool literals, bound and unbound variables, + - * / && || ==, assignments = += -= *= &&= ||=, calls of six recording user functions (identity, constant, failing, first, swap, increment), tuples and chains with absent elements; evaluated with a mutable context at string and tree level; compared with a reference interpreter on (result or error name, final variables, ordered call log); non-trivial = the program has a call or an assignment",
+    "nontrivial": lambda c, out: "LOG[]" not in out or "=" in c[1].get("src", ""),
+    "assumptions": ["reference interpreter of tools/props.py (ref_eval): used only to search for failing inputs",
+                    "model of the two evaluators equals the Rust code: correspondence of this run"],
+}
+
+
+# ---- C11 ----
+def has_assign(e):
+    if e is None or e[0] in ("lit", "var"):
+        return False
+    if e[0] == "asg":
+        return True
+    kids = {"bin": lambda: e[2:4], "pre": lambda: e[2:3], "call": lambda: e[2:3], "paren": lambda: [e[1]],
+            "tuple": lambda: e[1], "chain": lambda: e[1]}[e[0]]()
+    return any(has_assign(k) for k in kids)
+
+
+def c11_gen(tier, rng):
+    cases = []
+    n = 15000 if tier == "quick" else 200000
+    for _ in range(n):
+        e = c08_program(rng)
+        src = G.render(G.flatten(e), None, "space")
+        kind = rng.choice(["H", "H", "N"])
+        ops = c08_setup() + ["dump", "evc smv " + hexs(src), "ev srv " + hexs(src), "ev nrv " + hexs(src), "dump"]
+        cases.append((G.script(kind, ops), {"kind": "ro-vs-mut", "src": src, "ctx": kind, "assign": has_assign(e),
+                                             "want_ro": list(ref_run(e, True)), "want_mut": list(ref_run(e, False))}))
+    # the full language without assignment operators: the two evaluators must agree exactly
+    for _ in range(n // 2):
+        raw = G.rand_seq(rng, 2, allow_asg=False) if rng.random() < 0.3 else G.rand_expr(rng, rng.randint(1, 4), allow_asg=False)
+        e = G.parenthesize_seq(raw) if raw[0] in ("tuple", "chain") else G.parenthesize(raw)
+        src = G.render(G.flatten(e), None, "space")
+        kind = rng.choice(["H", "N"])
+        ops = C12_SETUP + ["dump", "evc smv " + hexs(src), "ev srv " + hexs(src), "dump"]
+        cases.append((G.script(kind, ops), {"kind": "agree", "src": src, "ctx": kind}))
+    # contexts without variable storage / read-only kinds
+    for src in ["a = 1", "a += 1", "1; a = 2", "q = 1; q", "1 + (z = 2)"]:
+        for kind in ("N", "E", "EB"):
+            ops = (C12_SETUP if kind == "N" else []) + ["dump", "ev srv " + hexs(src), "dump"] + (["evc smv " + hexs(src), "dump"] if kind == "N" else [])
+            cases.append((G.script(kind, ops), {"kind": "nostore", "src": src, "ctx": kind}))
+    return cases
+
+
+def strip_payload(s):
+    return "ERR " + re.match(r"ERR (\w+)", s).group(1) if s.startswith("ERR ") else s
+
+
+def c11_oracle(case, out, model_out):
+    m = case[1]
+    if out.startswith("PANIC"):
+        return None
+    steps = step_outputs(out)
+    if m.get("kind") == "ro-vs-mut":
+        d0, mut, ro, ro_n, d1 = steps[-5:]
+        if d0 != d1:
+            return "read-only evaluation of %r changed the context: %s -> %s" % (m["src"], d0, d1)
+        if ro != ro_n:
+            return "string-level and tree-level read-only evaluation of %r differ: %s vs %s" % (m["src"], ro, ro_n)
+        if m["ctx"] == "H":
+            if not m["assign"] and strip_payload(ro) != strip_payload(mut):
+                return "%r has no assignment operator but eval_with_context gives %s and eval_with_context_mut gives %s" % (m["src"], ro, mut)
+            if strip_payload(ro) != m["want_ro"][0]:
+                return "read-only evaluation of %r gives %s; projecting the mutable run (ContextNotMutable at the first assignment applied, earlier errors first) gives %s" % (m["src"], ro, m["want_ro"][0])
+        return None
+    if m.get("kind") == "agree":
+        d0, mut, ro, d1 = steps[-4:]
+        if d0 != d1:
+            return "read-only evaluation of %r changed the context" % m["src"]
+        if ro != mut:
+            return "%r has no assignment operator but eval_with_context gives %s and eval_with_context_mut gives %s" % (m["src"], ro, mut)
+        return None
+    if m.get("kind") == "nostore":
+        ds = [s for s in steps if s.startswith("CTX{")]
+        if len(set(ds)) != 1:
+            return "an assignment changed a context without variable storage: %s" % ds
+        for s in steps:
+            if s.startswith("OK") and s != "OK" and "=" in m["src"] and not m["src"].startswith("q"):
+                return "assignment %r succeeded on context kind %s: %s" % (m["src"], m["ctx"], s)
+    return None
+
+
+PROPS["C11"] = {
+    "gen": c11_gen, "oracle": c11_oracle,
+    "rule": "random effectful programs (as C08) and random assignment-free programs of the full language, each evaluated with eval_with_context_mut on a clone and with eval_with_context (string and tree level) on the same HashMapContext or NoStore context, state dumped before and after; expected: equal results when no assignment operator occurs, ContextNotMutable projection otherwise (reference interpreter), context unchanged; non-trivial = the two calls return a value or the projection applies",
+    "nontrivial": lambda c, out: True,
+    "assumptions": ["reference interpreter of tools/props.py in read-only mode: used only to search for failing inputs",
+                    "model of the two evaluators equals the Rust code: correspondence of this run"],
+}
+
+
+# ---------------------------------------------------------------------------------------------
+# C04: histories of context operations against an abstract map
+# ---------------------------------------------------------------------------------------------
+C04_NAMES = ["a", "b"]
+C04_VALUES = ["I1", "I2", "F3ff8000000000000", "F4004000000000000", "S" + hexs("x"), "S" + hexs("yz"), "B1", "B0",
+              "F0000000000000000", "F8000000000000000", "I0", "S",
+              "T(I1)", "T(I1,I2)", "E", "T()", "T(F0000000000000000)", "T(F8000000000000000)"]
+
+
+class AbsCtx:
+    def __init__(self):
+        self.vars = {}
+        self.funs = {}
+        self.off = False
+
+    def clone(self):
+        c = AbsCtx()
+        c.vars, c.funs, c.off = dict(self.vars), dict(self.funs), self.off
+        return c
+
+    def set_value(self, x, v):
+        if x in self.vars and self.vars[x][0] != v[0]:
+            return "ERR Expected%s(%s)" % (TYPE_NAME[self.vars[x][0]], value_text(v))
+        self.vars[x] = v
+        return "OK"
+
+    def dump(self):
+        vs = ",".join("%s=%s" % (hexs(k), value_text(self.vars[k])) for k in sorted(self.vars, key=hexs))
+        return "CTX{%s;off=%d;fns=%s}" % (vs, self.off, ",".join(sorted(hexs(f) for f in self.funs)))
+
+
+def py_binop(op, a, b):
+    """the plain operator of an op-assign on the value pairs used by the history generator; returns value or 'ERR name'"""
+    ta, tb = a[0], b[0]
+    if op in ("&&", "||"):
+        if ta != "B":
+            return "ERR ExpectedBoolean(%s)" % value_text(a)
+        if tb != "B":
+            return "ERR ExpectedBoolean(%s)" % value_text(b)
+        return ("B", (a[1] and b[1]) if op == "&&" else (a[1] or b[1]))
+    if op == "+":
+        for v in (a, b):
+            if v[0] not in "ISF":
+                return "ERR ExpectedNumberOrString(%s)" % value_text(v)
+        if ta == "S" and tb == "S":
+            return ("S", a[1] + b[1])
+        if ta == "S" or tb == "S":
+            return "ERR WrongTypeCombination"
+    else:
+        for v in (a, b):
+            if v[0] not in "IF":
+                return "ERR ExpectedNumber(%s)" % value_text(v)
+    if op == "^":
+        return ("F", f_bits(math.pow(to_f(a), to_f(b))))
+    if ta == "I" and tb == "I":
+        x, y = a[1], b[1]
+        if op in ("/", "%") and y == 0:
+            return "ERR " + ("DivisionError" if op == "/" else "ModulationError")
+        return ("I", {"+": x + y, "-": x - y, "*": x * y, "/": trunc_div(x, y) if y else 0, "%": x - y * trunc_div(x, y) if y else 0}[op])
+    x, y = to_f(a), to_f(b)
+    if op == "/":
+        r = ieee_div(x, y)
+    elif op == "%":
+        r = ieee_fmod(x, y)
+    else:
+        r = {"+": x + y, "-": x - y, "*": x * y}[op]
+    return ("F", f_bits(r))
+
+
+def ieee_div(x, y):
+    if y == 0.0:
+        if x != x or x == 0.0:
+            return float("nan")
+        return math.copysign(float("inf"), x) * math.copysign(1.0, y)
+    return x / y
+
+
+def ieee_fmod(x, y):
+    if math.isinf(x) or y == 0.0 or x != x or y != y:
+        return float("nan")
+    return math.fmod(x, y)
+
+
+def c04_history(rng, length):
+    """one history: (ops, expected step outputs); values small so that python arithmetic is exact"""
+    A = AbsCtx()
+    ops, want = [], []
+    clones = []
+    for _ in range(length):
+        k = rng.random()
+        x = rng.choice(C04_NAMES)
+        if k < 0.22:
+            v = rng.choice(C04_VALUES)
+            ops.append("set %s %s" % (hexs(x), v))
+            want.append(A.set_value(x, parse_value(v)))
+        elif k < 0.5:
+            v = rng.choice(C04_VALUES[:12])
+            lit = G.literal_of(v)
+            aop = rng.choice(G.ASSIGNOPS)
+            src = "%s %s %s" % (x, aop, lit)
+            ops.append("ev smv " + hexs(src))
+            val = parse_value(v)
+            if aop == "=":
+                r = A.set_value(x, val)
+                want.append("OK E" if r == "OK" else r)
+            elif x not in A.vars:
+                want.append("ERR VariableIdentifierNotFound(%s)" % hexs(x))
+            else:
+                try:
+                    r = py_binop(aop[:-1], A.vars[x], val)
+                except (ValueError, OverflowError, ZeroDivisionError):
+                    ops.pop()
+                    continue
+                if isinstance(r, str):
+                    want.append(r)
+                else:
+                    s = A.set_value(x, r)
+                    want.append("OK E" if s == "OK" else s)
+        elif k < 0.6:
+            ops.append("get " + hexs(x))
+            want.append("SOME " + value_text(A.vars[x]) if x in A.vars else "NONE")
+        elif k < 0.66:
+            ops.append("ev srv " + hexs(x))
+            want.append("OK " + value_text(A.vars[x]) if x in A.vars else "ERR VariableIdentifierNotFound(%s)" % hexs(x))
+        elif k < 0.71:
+            ops.append("clrv")
+            A.vars = {}
+            want.append("OK")
+        elif k < 0.74:
+            ops.append("clrf")
+            A.funs = {}
+            want.append("OK")
+        elif k < 0.77:
+            ops.append("clr")
+            A.vars, A.funs = {}, {}
+            want.append("OK")
+        elif k < 0.83:
+            f = rng.choice(["f", "a"])
+            ops.append("setfn %s konst:I9" % hexs(f))
+            A.funs[f] = 9
+            want.append("OK")
+        elif k < 0.87:
+            b = rng.random() < 0.5
+            ops.append("off %d" % b)
+            A.off = b
+            want.append("OK")
+        elif k < 0.93:
+            ops.append("clone")
+            want.append("OK")
+        elif k < 0.97:
+            f = rng.choice(["f", "a"])
+            ops.append("call %s I1" % hexs(f))
+            want.append("OK I9" if f in A.funs else "ERR FunctionIdentifierNotFound(%s)" % hexs(f))
+        else:
+            ops.append("ev srv " + hexs("max(1, 2)"))
+            want.append("ERR FunctionIdentifierNotFound(%s)" % hexs("max") if A.off else "OK I2")
+        ops.append("dump")
+        want.append(A.dump())
+    return ops, want
+
+
+def c04_gen(tier, rng):
+    cases = []
+    n = 6000 if tier == "quick" else 80000
+    for _ in range(n):
+        ops, want = c04_history(rng, rng.choice([2, 3, 4, 6, 10, 20, 60]) if rng.random() < 0.5 else rng.randint(1, 8))
+        cases.append((G.script("H", ops), {"kind": "history", "want": want}))
+    # exhaustive: every pair of (typed value, assignment form) on one name: 12 values x (set | 9 assignment operators x 8 literals)
+    for v0 in C04_VALUES:
+        for v1 in C04_VALUES:
+            A = AbsCtx()
+            ops = ["set %s %s" % (hexs("a"), v0), "set %s %s" % (hexs("a"), v1), "dump"]
+            want = [A.set_value("a", parse_value(v0)), A.set_value("a", parse_value(v1)), A.dump()]
+            cases.append((G.script("H", ops), {"kind": "history", "want": want}))
+        for v1 in C04_VALUES[:12]:
+            for aop in G.ASSIGNOPS:
+                A = AbsCtx()
+                A.set_value("a", parse_value(v0))
+                src = "a %s %s" % (aop, G.literal_of(v1))
+                if aop == "=":
+                    r = A.set_value("a", parse_value(v1))
+                    w = "OK E" if r == "OK" else r
+                else:
+                    try:
+                        r = py_binop(aop[:-1], A.vars["a"], parse_value(v1))
+                    except (ValueError, OverflowError, ZeroDivisionError):
+                        continue
+                    if isinstance(r, str):
+                        w = r
+                    else:
+                        s2 = A.set_value("a", r)
+                        w = "OK E" if s2 == "OK" else s2
+                cases.append((G.script("H", ["set %s %s" % (hexs("a"), v0), "ev smv " + hexs(src), "dump"]),
+                              {"kind": "history", "want": ["OK", w, A.dump()]}))
+    return cases
+
+
+def c04_oracle(case, out, model_out):
+    m = case[1]
+    if m.get("kind") != "history" or out.startswith("PANIC"):
+        return None
+    steps = step_outputs(out)
+    for i, (got, want) in enumerate(zip(steps, m["want"])):
+        if want.startswith("ERR") and "(" not in want:
+            ok = got.startswith(want)
+        else:
+            ok = got == want
+        if not ok:
+            ops = case[0].split("\t")[2].split(";")
+            return "history %s: step %d (%s) gives %s, the abstract map gives %s" % (";".join(ops[:i + 1]), i, ops[i], got, want)
+    if "CLONE-MISMATCH" in out or "ITER-MISMATCH" in out:
+        return "clone independence / variable listing broken: " + out[-200:]
+    return None
+
+
+PROPS["C04"] = {
+    "gen": c04_gen, "oracle": c04_oracle,
+    "rule": "random histories (length 1..60) over two names and twelve values of the six types: set_value, expression assignments with the 9 assignment operators, get, read, clear_variables / clear_functions / clear, set_function, toggling builtins, clone-and-continue (the original is re-inspected at the end), call; the complete state is dumped after every step and compared with an abstract map with the type rule; plus every (old value, new value) pair through set_value and through every assignment operator; non-trivial = history of two or more steps",
+    "nontrivial": lambda c, out: c[0].count(";") >= 2,
+    "assumptions": ["abstract map of tools/props.py (AbsCtx): used only to search for failing inputs; twin of Spec/AbsCtx.v",
+                    "clone independence is tested by the harness (clone, continue on the clone, re-dump the original), not proved",
+                    "model of HashMapContext and of the assignment operators equals the Rust code: correspondence of this run"],
+}
+
+
+# ---------------------------------------------------------------------------------------------
+# C09: function resolution -- the configuration matrix, enumerated completely
+# ---------------------------------------------------------------------------------------------
+C09_BUILTIN_SAMPLE = ["max", "min", "len", "typeof", "str::from", "math::abs", "floor", "if", "contains", "bitnot",
+                      "math::sqrt", "str::trim"]
+C09_NON_BUILTIN = ["foo", "g", "maxx", "Max", "abs", "math", "str::len", "_f"]
+MARK = "I777"
+
+
+def c09_cases(names_builtin, names_other, rng, full):
+    cases = []
+    argsrc = {"x": ("x", "I5"), "lit": ("3", "I3"), "str": ('"s"', "S" + hexs("s"))}
+    for n in names_builtin + names_other:
+        is_b = n in L.DOCUMENTED_BUILTINS
+        for kind in ("H", "N", "E", "EB"):
+            for off in ((False, True) if kind in ("H", "N") else (None,)):
+                for userfn in ((False, True) if kind in ("H", "N") else (False,)):
+                    for var in ((False, True) if kind in ("H", "N") else (False,)):
+                        for post in (("", "clone", "clrf") if kind == "H" else ("",)):
+                            if not full and rng.random() < 0.5 and post:
+                                continue
+                            setup = []
+                            if kind in ("H", "N"):
+                                setup.append("init %s I5" % hexs("x"))
+                                setup.append("setfn %s id" % hexs("wrap"))
+                                if userfn:
+                                    setup.append("setfn %s konst:%s" % (hexs(n), MARK))
+                                if var:
+                                    setup.append("init %s S%s" % (hexs(n), hexs("var")))
+                                if off is not None:
+                                    setup.append("off %d" % off)
+                                if post:
+                                    setup.append(post)
+                            disabled = {"E": True, "EB": False}.get(kind, off)
+                            has_user = userfn and post != "clrf"
+                            forms = [("%s(3)" % n, "I3"), ("%s 3" % n, "I3"), ("%s()" % n, "E"), ("%s(3, 4)" % n, "T(I3,I4)")]
+                            if kind in ("H", "N") and post != "clrf":
+                                forms.append(("wrap %s 3" % n, "I3"))
+                            ops = list(setup)
+                            for src, arg in forms:
+                                ops.append("ev srv " + hexs(src))
+                            ops.append("ev srv " + hexs(n))  # the bare name is a variable
+                            ops.append("dump")
+                            cases.append((G.script(kind, ops), {"kind": "resolution", "name": n, "ctx": kind, "disabled": disabled, "user": has_user,
+                                                              "var": var, "is_builtin": is_b, "forms": forms, "nsetup": len(setup), "post": post}))
+    return cases
+
+
+def c09_gen(tier, rng):
+    full = tier == "thorough"
+    nb = list(L.DOCUMENTED_BUILTINS) if full else C09_BUILTIN_SAMPLE + rng.sample([n for n in L.DOCUMENTED_BUILTINS if n not in C09_BUILTIN_SAMPLE], 8)
+    cases = c09_cases(nb, C09_NON_BUILTIN, rng, full)
+    # reference results of the builtins themselves (EmptyContextWithBuiltinFunctions), used for self-consistency
+    return cases
+
+
+def c09_post(cases, impl, model):
+    """resolution rule; the builtin's own answer is taken from the EB-context case of the same name and form"""
+    fails = []
+    builtin_answer = {}
+    for i, c in enumerate(cases):
+        m = c[1]
+        if m.get("kind") == "resolution" and m["ctx"] == "EB":
+            steps = step_outputs(impl.get(str(i), ""))
+            for (src, arg), got in zip(m["forms"], steps[m["nsetup"]:]):
+                builtin_answer[src] = got
+    for i, c in enumerate(cases):
+        m = c[1]
+        if m.get("kind") != "resolution":
+            continue
+        out = impl.get(str(i), "")
+        if out.startswith("PANIC") or not out:
+            continue
+        steps = step_outputs(out)[m["nsetup"]:]
+        n = m["name"]
+        log = out[out.index("LOG[") + 4:out.rindex("]")] if "LOG[" in out else ""
+        for (src, arg), got in zip(m["forms"], steps):
+            nested = src.startswith("wrap ")
+            if m["user"]:
+                want = "OK " + MARK
+            elif m["disabled"]:
+                want = "ERR FunctionIdentifierNotFound(%s)" % hexs(n)
+            elif m["is_builtin"]:
+                want = builtin_answer.get(src if not nested else src[5:])
+            else:
+                want = "ERR FunctionIdentifierNotFound(%s)" % hexs(n)
+            if nested and want is not None and want.startswith("OK "):
+                pass  # wrap is the identity
+            if want is not None and got != want:
+                fails.append((i, "call form %r in context %s (builtins disabled=%s, user function %s=%s, variable %s=%s, after %r): got %s, resolution rule gives %s" % (src, m["ctx"], m["disabled"], n, m["user"], n, m["var"], m["post"], got, want)))
+                break
+            if m["user"] and ("%s(%s)" % (hexs(n), arg)) not in log:
+                fails.append((i, "call form %r must pass %s to the user function %s; call log: %s" % (src, arg, n, log)))
+                break
+        else:
+            bare = steps[len(m["forms"])]
+            want = ("OK S" + hexs("var")) if m["var"] else "ERR VariableIdentifierNotFound(%s)" % hexs(n)
+            if bare != want:
+                fails.append((i, "bare identifier %r in context %s (variable bound=%s, function bound=%s): got %s, expected %s (separate namespaces)" % (n, m["ctx"], m["var"], m["user"], bare, want)))
+    return fails
+
+
+PROPS["C09"] = {
+    "gen": c09_gen, "post": c09_post,
+    "rule": "the configuration matrix: builtin names (quick: 20 of the 49, thorough: all) and 8 non-builtin names x context kind (HashMapContext, NoStore, EmptyContext, EmptyContextWithBuiltinFunctions) x builtin switch x user function of that name present/absent x variable of that name present/absent x after clone / after clear_functions x call forms n(3), n 3, n(), n(3, 4), wrap n 3, and the bare name; expected by the resolution rule, the builtin's own answer being taken from the run in EmptyContextWithBuiltinFunctions; non-trivial = every configuration",
+    "nontrivial": lambda c, out: True, "exhaustive": True,
+    "assumptions": ["resolution rule of tools/props.py (c09_post): used only to search for failing inputs",
+                    "model of the FunctionIdentifier arm and of the context kinds equals the Rust code: correspondence of this run"],
+}
+
+
+# ---------------------------------------------------------------------------------------------
+# C14: identifier iterators against the occurrence list of the generating AST
+# ---------------------------------------------------------------------------------------------
+
+def occurrences(e):
+    """identifier occurrences in source order: (class, name), class in W(rite) F(unction) R(ead)"""
+    if e is None:
+        return []
+    k = e[0]
+    if k == "lit":
+        return []
+    if k == "var":
+        return [("R", e[1])]
+    if k == "paren":
+        return occurrences(e[1])
+    if k == "pre":
+        return occurrences(e[2])
+    if k == "call":
+        return [("F", e[1])] + occurrences(e[2])
+    if k == "bin":
+        return occurrences(e[2]) + occurrences(e[3])
+    if k == "asg":
+        return [("W", e[2])] + occurrences(e[3])
+    if k in ("tuple", "chain"):
+        return [o for x in e[1] for o in occurrences(x)]
+    raise ValueError(k)
+
+
+def rename_ast(e, f):
+    """applies f(class, name) to every identifier"""
+    if e is None:
+        return None
+    k = e[0]
+    if k == "lit":
+        return e
+    if k == "var":
+        return ("var", f("R", e[1]))
+    if k == "paren":
+        return ("paren", rename_ast(e[1], f))
+    if k == "pre":
+        return ("pre", e[1], rename_ast(e[2], f))
+    if k == "call":
+        return ("call", f("F", e[1]), rename_ast(e[2], f))
+    if k == "bin":
+        return ("bin", e[1], rename_ast(e[2], f), rename_ast(e[3], f))
+    if k == "asg":
+        return ("asg", e[1], f("W", e[2]), rename_ast(e[3], f))
+    return (k, [rename_ast(x, f) for x in e[1]])
+
+
+def c14_gen(tier, rng):
+    cases = []
+    n = 12000 if tier == "quick" else 200000
+    for _ in range(n):
+        raw = G.rand_seq(rng, 3) if rng.random() < 0.35 else G.rand_expr(rng, rng.randint(1, 5))
+        e = G.parenthesize_seq(raw) if raw[0] in ("tuple", "chain") else G.parenthesize(raw)
+        if rng.random() < 0.3:
+            e = G.add_redundant_parens(rng, e)
+        src = G.render(G.flatten(e), rng, rng.choice(["space", "tight"]))
+        occ = occurrences(e)
+        j = lambda cls: ",".join(hexs(nm) for c, nm in occ if c in cls)
+        prefix = {"R": "ivr", "W": "ivw", "F": "if"}
+        renamed = rename_ast(e, lambda c, nm: prefix[c] + nm)
+        cases.append(("ITER\t" + hexs(src), {"kind": "iter", "src": src,
+                                             "want": {"ids": j("WFR"), "vars": j("WR"), "reads": j("R"), "writes": j("W"), "fns": j("F")},
+                                             "renamed": G.tree_of_top(renamed)}))
+    # hand-built shapes: non-last children with grandchildren, empty parenthesis nodes, n-ary sequence nodes
+    for src in ["(a + b) * (c + d) + e", "f((a, b), (c, (d, e))) + g()", "((), (), a)", "a; (b; (c; d)); e", "(a = b) + (c = d)",
+                "f g h x", "-(-(-a))", "x = y = z = w", "(a, b, c, d, e, f, g)", "a + (b)", "((((a))))", "f()", "(a; ; b)"]:
+        cases.append(("ITER\t" + hexs(src), {"kind": "iter-fixed", "src": src}))
+    # renaming variables in the tree and in the context does not change the result
+    for _ in range(n // 3):
+        raw = G.rand_seq(rng, 2) if rng.random() < 0.3 else G.rand_expr(rng, rng.randint(1, 4))
+        e = G.parenthesize_seq(raw) if raw[0] in ("tuple", "chain") else G.parenthesize(raw)
+        src = G.render(G.flatten(e), None, "space")
+        ren = rename_ast(e, lambda c, nm: ("v_" + nm) if c in "RW" else nm)
+        rsrc = G.render(G.flatten(ren), None, "space")
+        vals = {"a": "I3", "b": "F4004000000000000", "c": "S" + hexs("xy"), "x": "B1", "y": "T(I1,I2)"}
+        s1 = ["init %s %s" % (hexs(k), v) for k, v in vals.items()] + ["setfn %s id" % hexs("f"), "setfn %s swap" % hexs("g"), "ev nmv " + hexs(src)]
+        s2 = ["init %s %s" % (hexs("v_" + k), v) for k, v in vals.items()] + ["setfn %s id" % hexs("f"), "setfn %s swap" % hexs("g"), "ev nmv " + hexs(rsrc)]
+        cases.append((G.script("H", s1), {"kind": "rename-a", "pair": len(cases) + 1, "src": src}))
+        cases.append((G.script("H", s2), {"kind": "rename-b", "src": rsrc}))
+    return cases
+
+
+def c14_oracle(case, out, model_out):
+    m = case[1]
+    if m.get("kind") != "iter" or out.startswith("PANIC"):
+        return None
+    if not out.startswith("OK "):
+        return "well-formed program %r does not precompile: %s" % (m["src"], out[:200])
+    got = dict(re.findall(r"(\w+)\[([^\]]*)\]", out))
+    for k, w in m["want"].items():
+        if got.get(k) != w:
+            return "iter_%s of %r lists [%s], the identifier occurrences in source order are [%s]" % (k, m["src"], got.get(k), w)
+        if got.get(k + "m") != w:
+            return "the mutable %s iterator of %r visits [%s], expected the same occurrences [%s]" % (k, m["src"], got.get(k + "m"), w)
+    rt = out[out.index("renamed") + 7:]
+    if rt != m["renamed"]:
+        return "rewriting identifiers of %r through the five mutable iterators gives %s, expected %s" % (m["src"], rt[:300], m["renamed"][:300])
+    if got.get("nodes") != got.get("ops"):
+        return "iter() and iter_operators_mut() visit different nodes for %r" % m["src"]
+    return None
+
+
+def c14_post(cases, impl, model):
+    fails = []
+    for i, c in enumerate(cases):
+        if c[1].get("kind") != "rename-a":
+            continue
+        a, b = impl.get(str(i), ""), impl.get(str(c[1]["pair"]), "")
+        if a.startswith("PANIC") or b.startswith("PANIC"):
+            continue
+        norm = lambda s: re.sub(r"765f", "", s)  # hex of the prefix "v_" in names and in VariableIdentifierNotFound payloads
+        ra, rb = step_outputs(a)[-1], step_outputs(b)[-1]
+        ta, tb = a.split(" || ")[1], b.split(" || ")[1]
+        if norm(ra) != norm(rb) or norm(ta) != norm(tb):
+            fails.append((i, "renaming the variables of %r (tree and context) changes the outcome: %s || %s  vs  %s || %s" % (c[1]["src"], ra, ta, rb, tb)))
+    return fails
+
+
+PROPS["C14"] = {
+    "gen": c14_gen, "oracle": c14_oracle, "post": c14_post,
+    "rule": "random well-formed programs of the C02/C05 grammar (depth <= 5, sequences, redundant parentheses): the five immutable and five mutable iterators against the identifier occurrences of the generating AST in source order with their classes; the tree after rewriting through all five mutable iterators; fixed shapes (non-last children with grandchildren, empty parenthesis nodes, n-ary sequence nodes); pairs program / consistently renamed program+context evaluated and compared; non-trivial = at least one identifier",
+    "nontrivial": lambda c, out: "ids[]" not in out,
+    "assumptions": ["occurrence list computed by tools/props.py from the generating AST: used only to search for failing inputs",
+                    "model of NodeIter (explicit stack) equals the Rust code: correspondence of this run"],
+}
+
+
+# ---------------------------------------------------------------------------------------------
+# C06: literals
+# ---------------------------------------------------------------------------------------------
+
+def quote(t):
+    return '"' + t.replace("\\", "\\\\").replace('"', '\\"') + '"'
+
+
+def float_renderings(rng, x):
+    """standard renderings of a finite non-negative double (all parse back to x in python)"""
+    outs = {repr(x)}
+    for fmt in ("%.17g", "%.17e", "%.17E"):
+        outs.add(fmt % x)
+    if x < 1e15 and x == x:
+        s = "%.30f" % x
+        if float(s) == x:
+            outs.add(s.rstrip("0") if "." in s and not s.rstrip("0").endswith(".") else s)
+            outs.add(s)
+    e = "%.17e" % x
+    mant, ex = e.split("e")
+    outs.add(mant + "e" + str(int(ex)))              # no sign for positive exponents, no padding
+    outs.add(mant + "E" + ("+" if int(ex) >= 0 else "-") + str(abs(int(ex))))
+    if x == int(x) and x < 1e15:
+        outs.add("%d." % int(x))                      # trailing dot
+    if 0 < x < 1:
+        s = repr(x)
+        if s.startswith("0."):
+            outs.add(s[1:])                           # leading dot
+    res = []
+    for s in outs:
+        s = s.replace("e+0", "e+").replace("e-0", "e-").replace("E+0", "E+").replace("E-0", "E-")
+        if s[-1] in "+-":
+            s += "0"
+        try:
+            if float(s) == x and not re.fullmatch(r"\d+", s):
+                res.append(s)
+        except ValueError:
+            pass
+    return sorted(set(res))
+
+
+SPECIAL_WORDS = ["inf", "Inf", "INF", "infinity", "Infinity", "INFINITY", "nan", "NaN", "NAN", "iNf", "nAn"]
+PLAIN_WORDS = ["a", "abc", "x1", "_", "e", "e5", "E", "x", "0x", "0xg", "1e", "1x", "1_000", "tru", "True", "FALSE", "in", "na",
+               "infinit", "nano", "inff", "a.b", "a:b", "math::pi", "#", "é", "日本", "a\\b", "1.2.3", "..", "1e5e", "0b1", ".e1",
+               "e.", "1.e", "0x1g", "0X10", "９"]
+
+
+def c06_gen(tier, rng):
+    cases = []
+
+    def tree(src, want, extra=None):
+        m = {"kind": "literal", "src": src, "want": want}
+        m.update(extra or {})
+        cases.append(("TREE\t" + hexs(src), m))
+
+    def ev(src, want):
+        cases.append((G.script("H", ["ev sfv " + hexs(src)]), {"kind": "literal-eval", "src": src, "want": want}))
+
+    n = 8000 if tier == "quick" else 100000
+    # strings
+    for t in G.STRINGS + ["//", "/* x */", "a + b", "\n\t", "\\\\", '""', "\\\"", "𝄞\u0000x"] + [G.rand_unicode_string(rng, 12) for _ in range(n)]:
+        tree(quote(t), "OK (RootNode (Const:S%s))" % hexs(t))
+    for _ in range(n // 10):
+        t, u = G.rand_unicode_string(rng, 5), G.rand_unicode_string(rng, 5)
+        ev(quote(t) + "+" + quote(u), "OK S" + hexs(t + u))
+        ev("len(" + quote(t) + ")", "OK I%d" % len(t.encode("utf-8")))
+    for c in "nrt0'x ué/":
+        tree('"a\\' + c + 'b"', "ERR IllegalEscapeSequence(%s)" % hexs("\\" + c))
+    tree('"abc\\', "ERR IllegalEscapeSequence(%s)" % hexs("\\"))
+    for t in ['"', '"abc', '"a\\"', '1 + "x', '"\\\\\\"']:
+        tree(t, "ERR UnmatchedDoubleQuote")
+    # integers
+    ints = [i for i in G.INTS if i >= 0] + [rng.randint(0, G.I64_MAX) for _ in range(n // 4)] + [rng.randint(0, 10 ** rng.randint(1, 18)) for _ in range(n // 4)]
+    for i in ints:
+        z = "0" * rng.choice([0, 0, 0, 1, 3])
+        tree(z + str(i), "OK (RootNode (Const:I%d))" % i)
+        h = ("%x" if rng.random() < 0.5 else "%X") % i
+        if rng.random() < 0.3:
+            h = "".join(ch.upper() if rng.random() < 0.5 else ch.lower() for ch in h)
+        tree("0x" + z + h, "OK (RootNode (Const:I%d))" % i)
+    for big in [2 ** 63, 2 ** 63 + 1, 2 ** 64, 10 ** 19, 10 ** 30]:
+        tree(str(big), "OK (RootNode (Const:F%016x))" % f_bits(float(big)))
+        tree("0x%x" % big, "OK (RootNode (Read:%s))" % hexs("0x%x" % big))
+    # floats
+    floats = [G.bits_to_float(b) for b in G.FLOAT_BITS if b < 0x7ff0000000000000] + [G.bits_to_float(rng.getrandbits(63)) for _ in range(n // 3)]
+    floats += [rng.random() * 10 ** rng.randint(-20, 20) for _ in range(n // 3)] + [float(rng.randint(0, 10 ** 6)) / 2 ** rng.randint(0, 20) for _ in range(n // 6)]
+    floats += [5e-324, 2.5e-324, 2.2250738585072014e-308, 1.7976931348623157e308, 0.1, 0.2, 0.3, 1e22, 1e23, 9007199254740993.0, 4503599627370496.5]
+    for x in floats:
+        if x != x or x in (float("inf"), float("-inf")) or x < 0:
+            continue
+        rs = float_renderings(rng, x)
+        for s in (rs if tier == "thorough" else rng.sample(rs, min(3, len(rs)))):
+            tree(s, "OK (RootNode (Const:F%016x))" % f_bits(x))
+    for s in ["1e400", "1e-400", "0e999999999999999999999", "1e99999999999999999999", "0.000000000000000000001e21", "2.4703282292062327e-324",
+              "2.4703282292062328e-324", "1.7976931348623158e308", "1.797693134862315807e308", "179769313486231580793728971405303415079934132710037826936173778980444968292764750946649017977587207096330286416692887910946555547851940402630657488671505820681908902000708383676273854845817711531764475730270069855571366959622842914819860834936475292719074168444365510704342711559699508093042880177904174497792.0"]:
+        tree(s, "OK (RootNode (Const:F%016x))" % f_bits(float(s)))
+    # embedded without spaces
+    for a, op, b in [("5e-3", "-", "2e-3"), ("0x1e", "-", "3"), ("1e+2", "+", "1e+2"), ("2.5", "*", ".5"), ("1.", "/", "4"), ("3", "-", "1e-1"), ("1e1", "-", "1")]:
+        want = "(%s (Const:%s) (Const:%s))" % (G.BIN_NAME[op], "I%d" % int(a, 0) if re.fullmatch(r"\d+|0x[0-9a-f]+", a) else "F%016x" % f_bits(float(a)),
+                                               "I%d" % int(b, 0) if re.fullmatch(r"\d+|0x[0-9a-f]+", b) else "F%016x" % f_bits(float(b)))
+        tree(a + op + b, "OK (RootNode %s)" % want)
+    tree("a-1e+2", "OK (RootNode (Sub (Read:61) (Const:F%016x)))" % f_bits(100.0))
+    tree("1e+", "OK (RootNode (Add (Read:%s)))" % hexs("1e"))
+    tree("1e-x", "OK (RootNode (Sub (Read:%s) (Read:78)))" % hexs("1e"))
+    # booleans, identifiers
+    tree("true", "OK (RootNode (Const:B1))")
+    tree("false", "OK (RootNode (Const:B0))")
+    for w in PLAIN_WORDS:
+        tree(w, "OK (RootNode (Read:%s))" % hexs(w))
+    for w in SPECIAL_WORDS:
+        tree(w, "OK (RootNode (Read:%s))" % hexs(w), {"special_float_word": True})
+    return cases
+
+
+def c06_oracle(case, out, model_out):
+    m = case[1]
+    if m.get("kind") == "literal":
+        if out != m["want"]:
+            return "the literal %r precompiles to %s, it denotes %s" % (m["src"], out[:200], m["want"][:200])
+    if m.get("kind") == "literal-eval":
+        last = step_outputs(out)[-1]
+        if last != m["want"]:
+            return "%r evaluates to %s, expected %s" % (m["src"], last[:200], m["want"][:200])
+    return None
+
+
+PROPS["C06"] = {
+    "gen": c06_gen, "oracle": c06_oracle,
+    "rule": "quoted random Unicode strings (all planes, quotes, backslashes, comment markers, newlines), concatenated and measured; every other escape and missing quotes; decimal (with leading zeros) and hexadecimal (both cases) renderings of boundary and random integers in [0, 2^63), values beyond the range; shortest / 17-digit / fixed / e / E / e+ / e- / leading-dot / trailing-dot renderings of boundary and random finite doubles compared bit-exactly with the correctly rounded value (python float()); literals embedded between operators without spaces; booleans; words that are identifiers; the special words inf / infinity / nan (known finding); non-trivial = every case",
+    "nontrivial": lambda c, out: True,
+    "assumptions": ["python's float() is the correctly rounded decimal-to-double conversion; used only to search for failing inputs",
+                    "the model's decimal-to-double conversion (SpecFloat division + round to nearest even) equals Rust's f64::from_str: correspondence of this run"],
+}
+
+
+# ---------------------------------------------------------------------------------------------
+# C07: whitespace and comments
+# ---------------------------------------------------------------------------------------------
+
+def c07_gen(tier, rng):
+    cases = []
+    n = 6000 if tier == "quick" else 100000
+    group = 0
+    for _ in range(n):
+        k = rng.random()
+        if k < 0.55:
+            raw = G.rand_seq(rng, 2) if rng.random() < 0.3 else G.rand_expr(rng, rng.randint(1, 4))
+            e = G.parenthesize_seq(raw) if raw[0] in ("tuple", "chain") else G.parenthesize(raw)
+            toks = G.flatten(e)
+            if rng.random() < 0.3 and toks:
+                toks.pop(rng.randrange(len(toks)))
+        else:
+            toks = [rng.choice(G.TOKEN_ALPHABET_FULL + ["1e", "e5", "0x", "1.5e", "x", "3"]) for _ in range(rng.randint(1, 7))]
+        base = G.render(toks, rng, "space")
+        cases.append(("TREE\t" + hexs(base), {"kind": "sep-base", "group": group, "src": base}))
+        for style in (["tight", "random", "random"] if tier == "quick" else ["tight", "random", "random", "random", "random"]):
+            src = G.render(toks, rng, style)
+            cases.append(("TREE\t" + hexs(src), {"kind": "sep-variant", "group": group, "src": src, "tokens": toks}))
+        group += 1
+    # every Unicode whitespace character separates, one at a time
+    for w in G.WHITESPACE:
+        for a, b in (("a", "b"), ("1", "2"), ("+", "="), ("&", "&"), ("1e", "-3")):
+            src = a + chr(w) + b
+            cases.append(("TREE\t" + hexs(src), {"kind": "ws-char", "src": src, "ws": w, "ref": a + " " + b}))
+            cases.append(("TREE\t" + hexs(a + " " + b), {"kind": "ws-ref", "src": a + " " + b}))
+    # characters that are NOT whitespace must not separate
+    for w in (0x200B, 0x2060, 0xFEFF, 0x180E, 0x1F, 0x7F, 0x200C):
+        src = "a" + chr(w) + "b"
+        cases.append(("TREE\t" + hexs(src), {"kind": "non-ws", "src": src, "want": "OK (RootNode (Read:%s))" % hexs(src)}))
+    # unterminated inline comments; comment markers in strings
+    for src in ["1 /*", "1 + /* x", "/*/", "/* * /", "a /* b */ /* c", "1 /* \" */ + /* x"]:
+        cases.append(("TREE\t" + hexs(src), {"kind": "unterminated", "src": src, "want": "ERR CustomMessage(%s)" % hexs("unmatched inline comment")}))
+    for t in ["//", "/* x */", "a // b", "/*"]:
+        cases.append(("TREE\t" + hexs(quote(t)), {"kind": "in-string", "src": quote(t), "want": "OK (RootNode (Const:S%s))" % hexs(t)}))
+    return cases
+
+
+def c07_oracle(case, out, model_out):
+    m = case[1]
+    if m.get("kind") in ("non-ws", "unterminated", "in-string") and out != m["want"]:
+        return "%r precompiles to %s, expected %s" % (m["src"], out[:200], m["want"][:200])
+    return None
+
+
+def c07_post(cases, impl, model):
+    fails = []
+    base = {}
+    refs = {}
+    for i, c in enumerate(cases):
+        if c[1].get("kind") == "sep-base":
+            base[c[1]["group"]] = (i, impl.get(str(i), ""))
+        if c[1].get("kind") == "ws-ref":
+            refs[c[1]["src"]] = impl.get(str(i), "")
+    for i, c in enumerate(cases):
+        m = c[1]
+        if m.get("kind") == "sep-variant":
+            bi, bout = base[m["group"]]
+            out = impl.get(str(i), "")
+            if out != bout and not (out.startswith("PANIC") or bout.startswith("PANIC")):
+                fails.append((i, "two renderings of the token sequence %s differ only in their separators but precompile differently: %r -> %s ; %r -> %s" % (m["tokens"], cases[bi][1]["src"], bout[:200], m["src"], out[:200])))
+        if m.get("kind") == "ws-char":
+            out = impl.get(str(i), "")
+            if out != refs.get(m["ref"]):
+                fails.append((i, "U+%04X is a Unicode whitespace character but %r precompiles to %s while %r gives %s" % (m["ws"], m["src"], out[:150], m["ref"], refs.get(m["ref"], "")[:150])))
+    return fails
+
+
+PROPS["C07"] = {
+    "gen": c07_gen, "oracle": c07_oracle, "post": c07_post,
+    "rule": "token sequences (well-formed programs, near misses, random tokens incl. scientific-notation fragments), each rendered with single spaces, with no separator where fusion cannot occur, and with random valid separator assignments (all 25 Unicode whitespace characters, /* */ comments, // comments to end of line); all renderings of one sequence must precompile identically; every whitespace character alone; non-whitespace look-alikes; unterminated /*; comment markers inside strings; non-trivial = more than one token",
+    "nontrivial": lambda c, out: len(c[1].get("tokens", [0, 0])) > 1,
+    "assumptions": ["valid separator rule of tools/gen.py (fuses, sci_risk): twin of Spec/LexSpec.v valid_seps; used only to search for failing inputs",
+                    "model of the tokenizer equals the Rust code: correspondence of this run; the character-class table is regenerated exhaustively"],
 }
